@@ -205,8 +205,6 @@ def read_add_argument(call, sub, mutex):
         if len(names) != 1:
             _err(call, 'positional with several names')
         dest = names[0]
-    if action == 'version' and (sub != '' or mutex is not None):
-        pass
     return {'sub': sub, 'flags': flags, 'dest': dest, 'action': action, 'const': const, 'nargs': nargs,
             'default': default, 'type': typ, 'required': required, 'mutex': mutex}
 
@@ -431,6 +429,7 @@ def read_subcommands():
     subs = []          # (name, module)
     entries = []
     defaults = []
+    defaults_of = {}   # subcommand -> keys of its parse_defaults()
     nmutex = 0
     for fname in sorted(os.listdir(d)):
         if not fname.endswith('.py') or fname == '__init__.py':
@@ -469,7 +468,9 @@ def read_subcommands():
                 nmutex += nm
                 entries.extend(es)
             if pd is not None:
-                defaults.extend(read_defaults_method(pd))
+                ds = read_defaults_method(pd)
+                defaults.extend(ds)
+                defaults_of[name] = [k for k, _ in ds]
             subs.append((name, fname[:-3]))
     names = [n for n, _ in subs]
     if len(set(names)) != len(names):
@@ -477,17 +478,12 @@ def read_subcommands():
     keys = [k for k, _ in defaults]
     if len(set(keys)) != len(keys):
         raise TranslateError('two parse_defaults() define the same key: the result would depend on load order')
-    return subs, entries, defaults
+    return subs, entries, defaults, defaults_of
 
 
 # ----------------------------------------------------------------------------- assemble
-_CACHE = {}
-
-
 def table():
     """The option table as Python data (also used by the harness to generate command lines)."""
-    opt_path = os.path.join(core.REPO, 'jug', 'options.py')
-    sig = (core.REPO, os.path.getmtime(opt_path))
     tree = parse(os.path.join('jug', 'options.py'))
     common = read_common(tree)
     top, extras, subdest = read_parse(tree)
@@ -495,13 +491,13 @@ def table():
     coerce = read_coercion(tree)
     falses = read_false_strings(tree)
     check_key_to_option(tree)
-    subs, specific, sub_defaults = read_subcommands()
+    subs, specific, sub_defaults, defaults_of = read_subcommands()
     for e in common + extras + specific:
         if e['action'] == 'version':
             raise TranslateError('a version action on a subparser is not modelled')
     return {'subcommands': sorted(n for n, _ in subs), 'modules': dict(subs), 'subdest': subdest, 'top': top,
             'specific': specific, 'common': common + extras, 'main_defaults': main_defaults,
-            'sub_defaults': sub_defaults, 'coerce': coerce, 'false_strings': falses}
+            'sub_defaults': sub_defaults, 'defaults_of': defaults_of, 'coerce': coerce, 'false_strings': falses}
 
 
 def coq_entry(e):
